@@ -12,13 +12,13 @@ CHECKS = {
    text="After each generated history (syncs/checkpoints/snapshots/compactions while an application transaction with spilled uncommitted frames is open; live writer goroutine against monitor-driven litestream; checkpoint-then-snapshot stress) every TXID listed at any level is restored and must be exactly one committed application state, monotone in n, level 0 gapless from 1. Workload F adds local disk-full episodes around litestream operations (directed: everything copied, disk full, litestream checkpoint of each mode, space again, commits, Snapshot before the next sync). Held on the executions produced.",
    note="sha256 of the logical dump identifies a committed state; concurrent runs are real goroutine schedules (not enumerated); C12 applies the same oracle under the race detector", ref="§4 C02"),
  "C04": dict(level="exploration", engine="E-HIST", technique="runtime monitoring: differential byte oracle at the first acknowledgement after generated disturbances (stop/start, restart, offline activity, db replacement, meta loss/reset)",
-   text="Histories = prefix + disturbance(s) from the cross product named by the property + suffix; the first acknowledged sync after each disturbance must restore byte-for-byte to the source, a successful sync must leave the replica at the database position, and level-0 files at or below the previous replica maximum must never be replaced. Held on the histories explored.",
+   text="Histories = prefix + disturbance(s) from the cross product named by the property + suffix; the first acknowledged sync after each disturbance must restore byte-for-byte to the source, a successful sync must leave the replica at the database position, and level-0 files at or below the previous replica maximum must never be replaced. Disturbances also include a data-directory rollback (database, WAL and meta directory together) and a rollback of the database file with its WAL while the meta directory stays. Held on the histories explored.",
    note="the application is the only writer while litestream is down; file replica only", ref="§4 C04"),
  "C06": dict(level="exploration", engine="E-HIST", technique="runtime monitoring: independent re-composition of archived level-0 files compared with every compacted/snapshot file and with Restore(TXID=n)",
-   text="Every file at level>=1 produced in generated histories (1..8 level layouts, DB.Compact and Store.CompactDB, shrinking databases, in-chain full snapshots) is decoded and compared page-for-page, Commit and timestamp with the overlay of the archived level-0 files of its range; levels must be contiguous; Restore(TXID=n) must equal image_n before and after each compaction. Histories include process restarts (plain and of the whole Store) between compactions, and pinned histories in which the application checkpoints while litestream is closed or while its first sync after reopening fails, followed by a Snapshot.",
+   text="Every file at level>=1 produced in generated histories (1..8 level layouts, DB.Compact and Store.CompactDB, shrinking databases, in-chain full snapshots) is decoded and compared page-for-page, Commit and timestamp with the overlay of the archived level-0 files of its range; levels must be contiguous; Restore(TXID=n) must equal image_n before and after each compaction. Histories include process restarts (plain and of the whole Store) between compactions, and pinned histories in which the application checkpoints while litestream is closed or while its first sync after reopening fails (disk full, or only the first chunks of a chunked catch-up fit), followed by a Snapshot; a litestream checkpoint issued with a request-scoped context that is cancelled after the call; a snapshot stream read across a concurrent Close.",
    note="ltx.Decoder (framing/LZ4/checksums) trusted; overlay logic independent of ltx.Compactor", ref="§4 C06"),
  "C10": dict(level="fault_enumeration", engine="E-FAULT", technique="runtime monitoring under fault injection: single corruptions at enumerated offsets of every plan file and read-fault schedules, restore result compared with reference bytes",
-   text="For replicas produced by histories: delete/truncate/flip at enumerated offsets of every plan file, read-fault schedules within and beyond the retry budget, checksum-valid payload corruption (integrity check), pre-existing output paths. Restore must return an error with no output, or the exact reference bytes; a dying process is a violation. Half of the mid-stream faults hand out their last bytes together with the error (n>0 with a non-nil error).",
+   text="For replicas produced by histories: delete/truncate/flip at enumerated offsets of every plan file, read-fault schedules within and beyond the retry budget, checksum-valid payload corruption (integrity check), pre-existing output paths. Restore must return an error with no output, or the exact reference bytes; a dying process is a violation. Half of the mid-stream faults hand out their last bytes together with the error (n>0 with a non-nil error). Truncations of a plan file (to 0, 1, 50 bytes) are also judged against an unpinned latest-state restore: a file that is present but cut short must make it fail.",
    note="pinned target TXID; quick tier samples offsets of large files (structure boundaries +-8 plus PRNG sample), thorough enumerates every offset of small files", ref="§4 C10"),
  "C13": dict(level="exploration", engine="E-HIST", technique="runtime monitoring: WAL frame-count bound (reference WAL decoder) after every successful sync and LTX-file count across idle syncs",
    text="Generated write/sync histories over the threshold lattice; after every successful sync with nothing pinned SQLite's mxFrame must be <= the lowest configured threshold; 10 idle syncs may create at most 6 files and none in syncs 7..10. Fault histories add syncs that fail because the local staging area is full and snapshot uploads that break partway; after the fault the next successful sync has to restore the bound (a blocked checkpoint shows up as a deadlocked process).",
@@ -42,7 +42,7 @@ CHECKS = {
    text="Real Leaser instances over one in-memory conditional-write store; every request blocks until the scheduler grants it. All interleavings of 2 instances x programs of <=3 operations x TTL classes are visited (exhaustive), plus random 3-client schedules and free-running histories checked with porcupine; after every request at most one live-believed holder may exist, taken-over instances must get ErrLeaseNotHeld, generations must increase. Near-expiry pairs (holder TTL 0.8-2.5 s, immediate competing acquire) are judged on the recorded ExpiresAt against a clock reading taken after the competing acquire returned.",
    note="S3 conditional-write semantics are modelled by the in-memory store (If-Match / If-None-Match, 412/404); lease liveness is a class (+1h/-1h), never a clock reading", ref="§4 C20"),
  "C12": dict(level="exploration", engine="E-CONC", technique="runtime monitoring: Go race detector + progress-confirmed watchdog + lock/fd probes + porcupine registry model + C01/C02/snapshot oracles over concurrent stress runs of one Store with live writers",
-   text="N goroutines draw from the daemon's whole operation set (incl. the control socket) against one Store with live application writers, monitors at millisecond intervals and delays injected inside storage calls; zero race reports with a litestream frame, no stuck operation, no leaked read lock or descriptor after Close/Unregister, exactly one instance per path (porcupine), and afterwards the final acknowledgement restores to the source, every TXID is a consistent committed state and every level-9 file equals the level-0 image of its TXID. Acknowledgements observed while the writers run (SyncAndWait, Store.SyncDB(wait), POST /sync wait) are checked afterwards: every commit that had returned before the call must be in the replica as published when the call returned. The writers also checkpoint from the application side; the source itself must end with every returned commit and pass integrity_check. A registration storm (16 concurrent registrations of one path under registry-lock contention, repeated) follows each run.",
+   text="N goroutines draw from the daemon's whole operation set (incl. the control socket) against one Store with live application writers, monitors at millisecond intervals and delays injected inside storage calls; zero race reports with a litestream frame, no stuck operation, no leaked read lock or descriptor after Close/Unregister, exactly one instance per path (porcupine), and afterwards the final acknowledgement restores to the source, every TXID is a consistent committed state and every level-9 file equals the level-0 image of its TXID. Acknowledgements observed while the writers run (SyncAndWait, Store.SyncDB(wait), POST /sync wait) are checked afterwards: every commit that had returned before the call must be in the replica as published when the call returned. The writers also checkpoint from the application side; the source itself must end with every returned commit and pass integrity_check. A registration storm (16 concurrent registrations of one path under registry-lock contention, repeated) follows each run. Restore(latest) calls run concurrently with everything else and are judged afterwards (success must be a committed state, a failure must leave nothing at the output path); the final source must have an empty _litestream_lock table; every third stress case injects storage faults (failing listings, downloads and uploads) on top of the delays.",
    note="real goroutine schedules, not enumerated; runs are sized by completed calls with a wall-clock cap; restores per run are capped and the cap is stated in the evidence", ref="§4 C12"),
  "C16": dict(level="fault_enumeration", engine="E-CRASH", technique="runtime monitoring under process kills: ptrace supervisor kills the follower before each fs-mutating syscall; byte comparison with an ordinary restore at quiescence; sidecar monotonicity",
    text="A follower process (Restore with Follow) is driven poll by poll against staged primary histories with compaction, snapshots and retention; it is killed before every file-system-mutating syscall of its apply/sidecar cycles (and in the window between publishing the database and its first sidecar), restarted, and must converge byte-for-byte (masked header bytes) to Restore(TXID=replica max) without its sidecar ever regressing; graceful stop/restart histories run alongside, including one with a database larger than 4 GiB (64 KiB pages) whose followed transactions touch pages above the 4 GiB mark.",
@@ -51,13 +51,13 @@ CHECKS = {
    text="Scripted victim scenarios (sync/upload with checkpoints, compaction + snapshot, retention, restore, baseline fetch after meta loss, data-dir rollback, follow mode; the real litestream binary in the thorough tier) are killed before every (quick: every point of two scenarios plus boundaries and a PRNG sample of the others) fs-mutating syscall; afterwards every *.ltx under a final name must verify, restore outputs and sidecars must be complete, the last acknowledged TXID must restore to the image recorded at its acknowledgement, and a restarted victim must acknowledge a new sync that restores to the source.",
    note="SIGKILL of the process (page cache survives; the power-loss half is C11's); the application lives in the driver and is never killed", ref="§4 C03"),
  "C05": dict(level="fault_enumeration", engine="E-FAULT", technique="runtime monitoring under fault injection: seeded per-call fault schedules on a recording ReplicaClient proxy; gaplessness, ack=>stored, consistent restorability after every step, catch-up after faults stop",
-   text="Generated histories (writes, syncs, uploads, compactions, snapshots, Close with shutdown retry, meta-loss restarts) run over a proxy that injects {fail-before-effect, fail-after-effect, short-read, mid-stream error, premature EOF} per call; after every client call level 0 must be gapless, every acknowledgement must be stored and restore to the source, the replica must stay restorable to a consistent ledger state, and after faults stop replication must catch up. Histories include run-time ResetLocalState under faults; half of the injected download faults deliver their last bytes together with the error.",
+   text="Generated histories (writes, syncs, uploads, compactions, snapshots, Close with shutdown retry, meta-loss restarts) run over a proxy that injects {fail-before-effect, fail-after-effect, short-read, mid-stream error, premature EOF} per call; after every client call level 0 must be gapless, every acknowledgement must be stored and restore to the source, the replica must stay restorable to a consistent ledger state, and after faults stop replication must catch up. Histories include run-time ResetLocalState under faults; half of the injected download faults deliver their last bytes together with the error; after every step no compaction level may have a hole (overlapping files are legitimate after an upload that took effect but was reported as failed); directed cases make level-1/level-2 uploads fail once in each way (before effect, partial, after effect) while the process keeps running.",
    note="fault schedules are seeded classes (5/30/80 %, bursts, per-op targeting), not all assignments; fault-free view for restores", ref="§4 C05"),
  "C11": dict(level="exploration", engine="E-TRACE", technique="runtime monitoring: strace log of the litestream process checked offline against write->fsync->rename->fsync(dir)->report ordering rules and a durable-set model for unlinks",
-   text="The C03 victim scenarios (plus variants where nothing else is published in the same call) are traced with strace; for every rename to a published name the source must have been fsynced after its last modification (R1) and the directory fsynced before success is reported (R2); for every unlink the set of durably stored files minus the victim must still contain a valid restore chain to the highest acknowledged TXID (R3). T5 traces the v0.3.x restore path (snapshot-only and snapshot+WAL); T6 makes every fsync of the restoring process fail with EIO (strace fault injection): a failed fsync is not a flush.",
+   text="The C03 victim scenarios (plus variants where nothing else is published in the same call) are traced with strace; for every rename to a published name the source must have been fsynced after its last modification (R1) and the directory fsynced before success is reported (R2); for every unlink the set of durably stored files minus the victim must still contain a valid restore chain to the highest acknowledged TXID (R3). T5 traces the v0.3.x restore path (snapshot-only and snapshot+WAL); T6 makes every fsync of the restoring process fail with EIO (strace fault injection): a failed fsync is not a flush; T7 restores to an output path without a directory component (the checker follows chdir).",
    note="checks that the calls are issued in a safe order, not that kernel/disk honour them", ref="§4 C11"),
  "C14": dict(level="exploration", engine="E-HIST", technique="runtime monitoring: differential replay of identical deterministic application histories with and without litestream; logical dump, bookkeeping tables, integrity and journal mode compared",
-   text="The same seeded application history runs twice (control without litestream; treatment with syncs, checkpoints in all modes, snapshots, compactions, Close/Open inserted at PRNG-chosen points, also inside open application transactions); schema and rows of every non-litestream object, user_version, integrity_check, journal_mode must be equal and _litestream_lock must be empty at every quiescent point. Added: local disk-full episodes around litestream operations; an application statement that stays SQLITE_BUSY with no litestream call in flight is a violation; a cross-process scenario (application here, litestream in a process of its own) in which the application closes its last connection around every litestream operation, a third process asks the kernel (F_GETLK) who holds SQLite's shared lock on the database file, and the ledger is checked after reconnecting.",
+   text="The same seeded application history runs twice (control without litestream; treatment with syncs, checkpoints in all modes, snapshots, compactions, Close/Open inserted at PRNG-chosen points, also inside open application transactions); schema and rows of every non-litestream object, user_version, integrity_check, journal_mode must be equal and _litestream_lock must be empty at every quiescent point. Added: local disk-full episodes around litestream operations; an application statement that stays SQLITE_BUSY with no litestream call in flight is a violation; a cross-process scenario (application here, litestream in a process of its own) in which the application closes its last connection around every litestream operation, a third process asks the kernel (F_GETLK) who holds SQLite's shared lock on the database file, and the ledger is checked after reconnecting; databases the application created in rollback-journal mode (litestream switches them to WAL at its first sync; they must still be in WAL mode after litestream closed with the application gone).",
    note="application statements that hit SQLITE_BUSY in the treatment are retried so both runs commit the same transactions", ref="§4 C14"),
  "C17": dict(level="exploration", engine="E-HIST", technique="runtime monitoring: >1 GiB databases replicated and restored; every LTX file stream-scanned for the lock page, restored file stream-compared with the source",
    text="Databases just below 1 GiB are grown across / up to / beyond SQLite's lock page within one sync, then snapshotted, compacted and restored; no LTX file may contain the lock page, every other page must restore exactly, the lock page must be zero.",
